@@ -151,6 +151,10 @@ class Pmono(Pbind):
                 if node_id is None:
                     event = evt.event(inevent, type='_mono_on')
                     event.update(self._stream_dict_next(stream_dict))
+                    if evt.is_rest(event):
+                        # The node is created by the first event that plays.
+                        inevent = yield event
+                        continue
                     event._prepare_event(instrument)
                     server = event['server']
                     node_id = event['node_id']
